@@ -37,7 +37,7 @@ fn store_raw_rule<const N: usize, const L: usize>() {
     }
     assert!(r.is_ok());
     let out = r.unwrap();
-    kani::cover!(out.len() == N);
+    kani::cover!(out.len() == if L + 1 < N { L + 1 } else { N }, "expected stored length reachable");
     // never longer than the input
     assert!(out.len() <= N, "stored form is longer than the input");
     if L + 1 < N {
